@@ -211,6 +211,9 @@ def check_index_at_distance(prog: Program, rep, rule: str) -> bool:
         return False
     row_sc = {s_ for k_, s_ in scales if k_ == 'row'}
     q_sc = {s_ for k_, s_ in scales if k_ == 'query'}
+    if not row_sc or not q_sc:
+        rep.undecided(rule, iad.where, 'index_at_distance (engine F)', 'the row distance / the query are not read in a spelling the rule knows')
+        return False
     if len(row_sc) != 1 or row_sc != q_sc:
         rep.fail(rule, td.path, iad.node.lineno, iad.qualname, 'scale',
                  f'the row distance is read as {sorted(row_sc)} and the query as {sorted(q_sc)}: not one scale')
@@ -858,7 +861,7 @@ def run(prog: Program, rep, thorough: bool) -> None:
         g = gens[0]
         nxt = parent(g)
         if not (isinstance(nxt, ast.Call) and (dotted(nxt.func) or '') == 'next' and len(nxt.args) == 2):
-            problems.append('the generator is not consumed by next(..., default)')
+            raise AnalysisError('index_at_distance: a generator that is not consumed by next(..., default), and engine F cannot read the function')
         else:
             default_ok = norm(nxt.args[1]) in ('-1',)
         comp = g.generators[0]
@@ -871,9 +874,11 @@ def run(prog: Program, rep, thorough: bool) -> None:
             idx_var, order_ok = comp.target.elts[0].id, True
             elt_ok = norm(g.elt) == idx_var
             row_expr = comp.target.elts[1].id
-        else:
+        elif it in ('reversed(range(len(self.trajectory)))', 'range(len(self.trajectory) - 1, -1, -1)', 'reversed(self.trajectory)'):
             order_ok, elt_ok, row_expr = False, False, None
             problems.append(f'iterates `{it}`: not an ascending scan over all rows')
+        else:
+            raise AnalysisError(f'index_at_distance iterates `{it[:60]}`: neither a scan the rule knows nor readable by engine F')
         if not elt_ok and order_ok:
             problems.append(f'yields `{norm(g.elt)}` instead of the index')
     elif loops:
